@@ -1077,7 +1077,10 @@ class PackBasedObjectStore(PackCapableObjectStore, PackedObjectContainer):
         for alternate in self.alternates:
             if sha in alternate:
                 return True
-        return False
+        # A concurrent repack may have packed the object and removed its
+        # loose file after the packs were searched: look at the packs again
+        # (this rescans the pack directory), like git's reprepare_packed_git().
+        return self.contains_packed(sha)
 
     def _add_cached_pack(self, base_name: str, pack: Pack) -> None:
         """Add a newly appeared pack to the cache by path."""
@@ -1436,6 +1439,13 @@ class PackBasedObjectStore(PackCapableObjectStore, PackedObjectContainer):
                 return alternate.get_raw(hexsha)
             except KeyError:
                 pass
+        # A concurrent repack may have packed the object and removed its
+        # loose file after the packs were searched: look at the packs again
+        # (this rescans the pack directory), like git's reprepare_packed_git().
+        try:
+            return self._lookup_in_packs(lambda p: p.get_raw(sha))
+        except KeyError:
+            pass
         raise KeyError(hexsha)
 
     def iter_unpacked_subset(
@@ -1543,8 +1553,13 @@ class PackBasedObjectStore(PackCapableObjectStore, PackedObjectContainer):
             loose_obj: ShaFile | None = self._get_loose_object(oid)
             if loose_obj is not None:
                 yield loose_obj
-            elif not allow_missing:
-                raise KeyError(oid)
+                continue
+            # Packed (and its loose file removed) since the packs were searched?
+            try:
+                yield self[oid]
+            except KeyError:
+                if not allow_missing:
+                    raise
 
     def get_unpacked_object(
         self, sha1: bytes, *, include_comp: bool = False
